@@ -49,7 +49,7 @@ func exportedLeaves(st *types.Struct) []string {
 			}
 		}
 		if f.Exported() {
-			out = append(out, f.Name())
+			out = append(out, fldName(f))
 		}
 	}
 	return out
@@ -69,7 +69,7 @@ func fieldsReadFrom(v ssa.Value, st *types.Struct) map[string]bool {
 				return
 			}
 		}
-		m[f.Name()] = true
+		m[fldName(f)] = true
 	}
 	walk = func(v ssa.Value, st *types.Struct) {
 		if seen[v] || v.Referrers() == nil {
